@@ -7,6 +7,9 @@ CONSTANTS
   NOffer = 2
   NTake = 2
   Kinds = {"take", "poll"}
+  WithWaiters = FALSE
+  OneShot = FALSE
+  LoaderFreeOnly = FALSE
   WithClose = FALSE
   GuardedClose = TRUE
 INVARIANTS Inv_NoPanic Inv_Bound Inv_Conservation Inv_NoDup Inv_ProducerOrder Inv_ConsumerSeesProducerOrder
